@@ -1,0 +1,7 @@
+//go:build !verif
+
+package compose
+
+import "context"
+
+func verifTraceSubmit(context.Context, int, []*task) {}
